@@ -8,7 +8,10 @@ PID = "C10"
 RULE = ("one request per case, per guarded entry point; non-trivial = an argument exactly on or adjacent to a guard boundary: index in "
         "{size-1, size, size+1, UINT_MAX}, shapes equal / transposed / off by one, table length 0..3, x within 4 ulp of an interpolation-domain "
         "end or of the 1 % tolerance point, p within 1 ulp of 0 or 1, digits 7/8, n 170/171, parameter 0 or +-denorm_min, a root bracket with a "
-        "zero or equal-sign end value, a method name differing from a valid one in one character; distinct by case text")
+        "zero or equal-sign end value, a method name differing from a valid one in one character; for requests that are not the first one on an object "
+        "(Matrix/Vector after Resize/Assign/Delete_/copy/assignment/sum/product/transposition, Interpolation after k other requests, Factorial after other "
+        "Factorial/Binomial_Coefficient requests) and for constructors with unit arguments: the request at the boundary of the NEW state (index = new size-1, size; "
+        "operand of the new and of the old shape; x within 3 ulp or a geometric ladder 1e-16..1e-4 of the converted domain ends and tolerance points); distinct by case text")
 LEVEL_TEXT = ("Theorems (Coq, all argument values, sizes and table lengths): for every guarded entry point the guard model returns Exit exactly when "
               "the request is outside the stated domain (index < size; shapes conformable; square; 3-vectors; strictly increasing table of >= 2 points with equal "
               "list lengths and rows of the right size; x not at or beyond d0 - 0.01 (x1-x0) / d1 + 0.01 (x_{N-1}-x_{N-2}) (over R, strict <); sign change or zero end value, "
@@ -95,7 +98,8 @@ def in_domain(xs, x):
     exact = dist < tol
     # the code's evaluation: fabs(x - e) < 1e-2 * (ha - hb), each operation rounded once
     coded = abs(x - e) < 1e-2 * (ha - hb)
-    slack = Fr(8, 2 ** 53) * max(abs(Fr(x)), abs(Fr(e)), abs(Fr(ha)), abs(Fr(hb)))   # a priori: <= 4 roundings of relative size 2^-53 on these operands
+    # a priori: <= 4 roundings, each of relative size 2^-53 on these operands or (in the subnormal range) of absolute size 2^-1075
+    slack = Fr(8, 2 ** 53) * max(abs(Fr(x)), abs(Fr(e)), abs(Fr(ha)), abs(Fr(hb))) + Fr(4, 2 ** 1074)
     if exact != coded and abs(dist - tol) <= slack: return None
     return exact
 
@@ -107,9 +111,158 @@ def det_exact(m):
     return sum(((-1) ** j) * Fr(m[0][j]) * det_exact([row[:j] + row[j + 1:] for row in m[1:]]) for j in range(n))
 
 
+# ------------------------------------------------------------------ several requests on one object: independent bookkeeping
+def scaled_table(xs, dim):
+    """the abscissae after `if(dim > 0) x *= dim`; None when the conversion over/underflows into a table that is no table any more
+    (a question outside this property)"""
+    if math.isnan(dim): return None
+    sx = [x * dim for x in xs] if dim > 0 else list(xs)
+    if any(math.isinf(v) or math.isnan(v) for v in sx) or not valid_table(sx): return None
+    return sx
+
+
+def worst(vs):
+    """all requests of a sequence: one meaningless request ends the process; otherwise an undecidable one leaves no claim"""
+    if False in vs: return False
+    return None if None in vs else True
+
+
+def icall_verdicts(t, pos, n, sx):
+    vs = []
+    for _ in range(n):
+        w = t[pos]; pos += 1
+        if w in ("loc", "ev"): vs.append(in_domain(sx, tokf(t[pos]))); pos += 1
+        elif w == "der": vs.append(in_domain(sx, tokf(t[pos]))); pos += 2
+        elif w == "int": vs.append(worst([in_domain(sx, tokf(t[pos])), in_domain(sx, tokf(t[pos + 1]))])); pos += 2
+        elif w in ("min", "max"):
+            a, b = tokf(t[pos]), tokf(t[pos + 1]); pos += 2
+            if math.isnan(a) or math.isnan(b) or b < a: vs.append(False)
+            else: vs.append(worst([in_domain(sx, a), in_domain(sx, b)]))
+        elif w == "glob": vs.append(True)
+        else: raise ValueError("interpolation request " + w)
+    return vs
+
+
+def icalls_ref(t):
+    """(verdict, expected domain or None) of `icalls` / `icalls_t`"""
+    if t[0] == "icalls":
+        xs, pos = rd_list(t, 1, tokf); nf = int(t[pos]); pos += 1
+        ctor = False if len(xs) != nf else valid_table(xs)
+    else:
+        rows, pos = rd_table(t, 1)
+        if any(len(r) != 2 for r in rows): ctor, xs = False, []
+        else: xs = [r[0] for r in rows]; ctor = valid_table(xs)
+    xd = tokf(t[pos]); pos += 2
+    if ctor is not True: return ctor, None
+    sx = scaled_table(xs, xd)
+    if sx is None: return None, None
+    n = int(t[pos]); pos += 1
+    return worst(icall_verdicts(t, pos, n, sx)), (sx[0], sx[-1])
+
+
+def i2calls_ref(t):
+    if t[0] == "i2calls":
+        xs, pos = rd_list(t, 1, tokf); ys, pos = rd_list(t, pos, tokf); lens, pos = rd_list(t, pos, int)
+        if len(lens) != len(xs) or any(l != len(ys) for l in lens): return False, None
+    else:
+        rows, pos = rd_table(t, 1)
+        if any(len(r) != 3 for r in rows): return False, None
+        if any(math.isnan(v) for r in rows for v in r): return None, None
+        xs = sorted(set(r[0] for r in rows)); ys = sorted(set(r[1] for r in rows))
+        if [(r[0], r[1]) for r in rows] != [(x, y) for x in xs for y in ys]: return False, None
+    vx, vy = valid_table(xs), valid_table(ys)
+    if vx is False or vy is False: return False, None
+    if vx is None or vy is None: return None, None
+    xd, yd = tokf(t[pos]), tokf(t[pos + 1]); pos += 3
+    sx, sy = scaled_table(xs, xd), scaled_table(ys, yd)
+    if sx is None or sy is None: return None, None
+    n = int(t[pos]); pos += 1; vs = []
+    for k in range(n): vs.append(worst([in_domain(sx, tokf(t[pos + 2 * k])), in_domain(sy, tokf(t[pos + 2 * k + 1]))]))
+    return worst(vs), (sx[0], sx[-1], sy[0], sy[-1])
+
+
+def fact_seq_ref(t):
+    n = int(t[1]); pos = 2; vs = []
+    for _ in range(n):
+        if t[pos] == "f": vs.append(0 <= int(t[pos + 1]) <= 170); pos += 2
+        else: vs.append(int(t[pos + 1]) >= 0 and int(t[pos + 2]) >= 0); pos += 3
+    return all(vs)
+
+
+def vec_ref(t):
+    """(verdict, Size() after the history)"""
+    d, n = int(t[1]), int(t[2]); pos = 3
+    for _ in range(n):
+        w = t[pos]; pos += 1
+        if w in ("resize", "assign", "set"):
+            d = int(t[pos]); pos += 1
+            if d < 0: return None, None
+        elif w == "addeq":
+            if int(t[pos]) != d: return False, None
+            pos += 1
+        elif w != "copy": raise ValueError("vector operation " + w)
+    w = t[pos]; a = int(t[pos + 1]) if w != "none" else 0
+    if w == "at": return 0 <= a < d, d
+    if w in ("dot", "add", "sub", "addeq"): return a == d, d
+    if w == "cross": return a == 3 and d == 3, d
+    return True, d
+
+
+def mat_apply(shape, w, a, b):
+    """mathematical shape after one member function; False when the request has no meaning; None: no claim"""
+    r, c = shape
+    if w in ("resize", "assign", "set"): return None if (a < 0 or b < 0) else (a, b)
+    if w == "delrow": return (r - 1, c) if 0 <= a < r else False
+    if w == "delcol": return (r, c - 1) if 0 <= a < c else False
+    if w == "copy": return (r, c)
+    if w in ("pluseq", "sum"): return (r, c) if (a, b) == (r, c) else False
+    if w == "prod": return (r, b) if a == c else False
+    if w == "transp": return (c, r)
+    raise ValueError("matrix operation " + w)
+
+
+MAT_OP_ARGS = {"resize": 2, "assign": 2, "set": 2, "delrow": 1, "delcol": 1, "copy": 0, "pluseq": 2, "sum": 2, "prod": 2, "transp": 0}
+MAT_PROBE_ARGS = {"none": 0, "at": 1, "row": 1, "col": 1, "plus": 2, "minus": 2, "pluseq": 2, "mul": 2, "lmul": 2, "matvec": 1, "vecmat": 1, "trace": 0, "det": 0, "transpose": 0, "sub": 2, "eq": 0}
+
+
+def mat_probe_ok(shape, w, a, b):
+    r, c = shape
+    if w in ("none", "transpose", "eq"): return True
+    if w in ("at", "row"): return 0 <= a < r
+    if w == "col": return 0 <= a < c
+    if w in ("plus", "minus", "pluseq"): return (a, b) == (r, c)
+    if w == "mul": return a == c
+    if w == "lmul": return b == r
+    if w == "matvec": return a == c
+    if w == "vecmat": return a == r
+    if w in ("trace", "det"): return r == c
+    if w == "sub": return 0 <= a < r and 0 <= b < c
+    raise ValueError("matrix request " + w)
+
+
+def mat_ref(t):
+    """(verdict, (Rows, Columns) after the history, zero_row_result): zero_row_result = the object is the result of a sum or a transposition
+    that has no rows but columns (region of known finding K-C10-1)"""
+    shape = (int(t[1]), int(t[2])); n = int(t[3]); pos = 4; zr = False
+    for _ in range(n):
+        w = t[pos]; k = MAT_OP_ARGS[w]; a = int(t[pos + 1]) if k >= 1 else 0; b = int(t[pos + 2]) if k >= 2 else 0; pos += 1 + k
+        nxt = mat_apply(shape, w, a, b)
+        if nxt is None or nxt is False: return nxt, None, zr
+        if w in ("resize", "assign", "set"): zr = False       # a fresh table of rows; every other member function works on the object as it is
+        if w in ("sum", "transp") and nxt[0] == 0 and nxt[1] > 0: zr = True
+        shape = nxt
+    w = t[pos]; k = MAT_PROBE_ARGS[w]; a = int(t[pos + 1]) if k >= 1 else 0; b = int(t[pos + 2]) if k >= 2 else 0
+    return mat_probe_ok(shape, w, a, b), shape, zr
+
+
 def meaningful(line):
     """Independent statement of every entry point's domain.  True: must return (OK); False: must exit with a diagnostic; None: no claim."""
     t = line.split(); op = t[0]; I = lambda k: int(t[k])
+    if op in ("icalls", "icalls_t"): return icalls_ref(t)[0]
+    if op in ("i2calls", "i2calls_t"): return i2calls_ref(t)[0]
+    if op == "fact_seq": return fact_seq_ref(t)
+    if op == "vec_hist": return vec_ref(t)[0]
+    if op == "mat_hist": return mat_ref(t)[0]
     if op in ("vec_at", "vec_at_c"): return 0 <= I(2) < I(1)
     if op in ("dot", "vec_add", "vec_sub", "vec_addeq", "vec_subeq"): return I(1) == I(2)
     if op == "cross": return I(1) == 3 and I(2) == 3
@@ -441,7 +594,174 @@ def generate(rng, tier):
     # ---- Locate_Closest_Location
     for l in [[], [1.0], [1.0, 2.0], [2.0, 1.0], [1.0, 1.0], [0.0, 1.0, 3.0], [0.0, 3.0, 1.0], [3.0, 0.0, 1.0], [0.0, 1.0, na(1.0, 0.0)], [0.0, 1.0, na(1.0, 2.0)], [-0.0, 0.0], [0.0, -0.0]]:
         for tg in (-1.0, 0.0, 0.5, 1.0, 2.0, 10.0): add(f"closest {flist(l)} {hx(tg)}", "closest", nt=True)
+    gen_sessions(rng, big, add, edge_points)
     return cs
+
+
+def ladder(x, rels=(1e-16, 1e-13, 1e-10, 1e-7, 1e-4)):
+    """points at geometric relative distances on both sides of x (beside the +-ulp neighbours that edge_points gives)"""
+    sc = abs(x) if x != 0 else 1.0
+    return [x + sgn * r * sc for r in rels for sgn in (-1.0, 1.0)]
+
+
+def gen_sessions(rng, big, add, edge_points):
+    """requests that are not the first one made on an object / in the process, and the unit arguments of the constructors"""
+    # ---- Interpolation(x, f, x_dim, f_dim) and Interpolation(table, x_dim, f_dim): every request kind, judged on the converted table
+    grids = [[1.0, 2.0, 3.0, 4.0], [0.0, 1.0], [-100.0, 0.0, 100.0, 300.0], [1e-3, 2e-3, 5e-3], [-3.0, -1.0, 0.5, 7.0], [0.0, 0.1, 0.2, 0.3, 1.0, 1.1]]
+    xdims = [-1.0, 0.0, 1.0, 10.0, 0.5, 1e-3, 1e6, 1.5 * 2.0 ** -40, 5.0677e15, 1.9733e-16]          # the last two: GeV^-1 <-> m
+    if big: grids += [[100.0, 200.0, 400.0, 800.0, 1600.0], [2.0, 3.0], [-1e6, 1.0, 1e6 + 0.5]]; xdims += [1e-300, 1e300, DMIN, 1e-320, 3.0, -0.0, math.inf]
+    fdims = [-1.0, 2.5, 0.0, 1e-30]
+    def call(kind, x, y=None):
+        if kind in ("loc", "ev"): return f"{kind} {hx(x)}"
+        if kind == "der": return f"der {hx(x)} {rng.choice([0, 1, 2, 3, 4])}"
+        return f"{kind} {hx(x)} {hx(y)}"
+    def head(g, xd, fd, table):
+        if table: return f"icalls_t {len(g)} " + " ".join(f"2 {hx(x)} {hx(0.5 * x - 1.0)}" for x in g) + f" {hx(xd)} {hx(fd)}"
+        return f"icalls {flist(g)} {len(g)} {hx(xd)} {hx(fd)}"
+    for g in grids:
+        for xd in (xdims if big else xdims[:1] + [10.0, 1e-3] + rng.sample([d for d in xdims[1:] if d not in (10.0, 1e-3)], 2)):
+            sx = scaled_table(g, xd)
+            if sx is None: sx = g
+            fd = rng.choice(fdims); table = rng.random() < 0.25
+            h = head(g, xd, fd, table)
+            add(f"{h} 0", "units-ctor", nt=True)
+            # (a) single requests at the ends and tolerance points of the CONVERTED table (+-1..3 ulp and a geometric ladder), and at the
+            #     points that would be the ends / interior of the table had it not been converted
+            pts = [p for p, nt in edge_points(sx) if nt]
+            for e in (sx[0], sx[-1], sx[0] - 1e-2 * (sx[1] - sx[0]), sx[-1] + 1e-2 * (sx[-1] - sx[-2])): pts += ladder(e)
+            pts += [0.5 * (sx[0] + sx[1]), 0.5 * (sx[-2] + sx[-1]), sx[len(sx) // 2]]
+            raw = list(g) + [0.5 * (g[0] + g[1]), 0.5 * (g[-2] + g[-1]), g[0] - 0.005 * (g[1] - g[0]), g[-1] + 0.005 * (g[-1] - g[-2])]
+            if xd > 0 and xd != 1.0: pts += raw
+            step = 1 if big else 5
+            for k, x in enumerate(pts[rng.randrange(step)::step]):
+                add(f"{h} 1 {call(('ev', 'loc', 'der')[k % 3], x)}", "units-request", nt=True)
+            inside = [sx[0], sx[-1]] + [sx[0] + f * (sx[-1] - sx[0]) for f in (0.001, 0.2, 0.35, 0.5, 0.77, 0.999)] + sx[1:-1]
+            outside = [sx[0] - 0.5 * (sx[1] - sx[0]), sx[-1] + 0.02 * (sx[-1] - sx[-2]), sx[-1] + 3.0 * (sx[-1] - sx[0]), math.nan] + (raw if xd > 0 and xd != 1.0 and not (sx[0] <= g[0] <= sx[-1]) else [])
+            for _ in range(2 if not big else 12):
+                a, b = rng.choice(inside), rng.choice(inside); o_ = rng.choice(outside)
+                for kind in ("int", "min", "max"):
+                    add(f"{h} 1 {call(kind, a, b)}", "units-request", nt=True)
+                add(f"{h} 1 {call(rng.choice(['int', 'min', 'max']), min(a, b), o_)}", "units-request", nt=True)
+                add(f"{h} 1 {call(rng.choice(['int', 'min', 'max']), o_, max(a, b))}", "units-request", nt=True)
+            add(f"{h} 2 glob int {hx(sx[0])} {hx(sx[-1])}", "units-request", nt=True)
+            # (b) several requests on one object: ascending (correlated, the hunt branch of Locate), descending, far jumps, repeated
+            #     arguments, a meaningless request after k meaningful ones
+            for _ in range(3 if not big else 20):
+                k = rng.choice([2, 3, 5, 8, 13])
+                mode = rng.choice(["asc", "desc", "jump", "same", "knots"])
+                if mode == "asc": xs_ = sorted(rng.choice(inside) for _ in range(k))
+                elif mode == "desc": xs_ = sorted((rng.choice(inside) for _ in range(k)), reverse=True)
+                elif mode == "jump": xs_ = [rng.choice([sx[0], sx[-1], inside[2], inside[-1]]) for _ in range(k)]
+                elif mode == "same": xs_ = [rng.choice(inside)] * k
+                else: xs_ = [rng.choice(sx) for _ in range(k)]
+                calls = [call(rng.choice(["ev", "loc", "der"]), x) for x in xs_]
+                if rng.random() < 0.3: calls.insert(rng.randrange(len(calls) + 1), call(rng.choice(["int", "min"]), min(xs_), max(xs_)))
+                tail = rng.random()
+                if tail < 0.35: calls.append(call("ev", rng.choice(outside)))
+                elif tail < 0.5: calls.append(call("ev", rng.choice(pts)))
+                add(f"{h} {len(calls)} " + " ".join(calls), "request-sequence", nt=True)
+    # malformed tables with unit arguments: the validation is that of the plain constructor
+    for xs in [[], [1.0], [2.0, 1.0], [1.0, 1.0], [0.0, 1.0, 1.0], [1.0, 2.0]]:
+        for xd in (10.0, -1.0):
+            for nf in sorted(set([len(xs), len(xs) + 1])): add(f"icalls {flist(xs)} {nf} {hx(xd)} {hx(-1.0)} 0", "units-ctor", nt=True)
+    # ---- Interpolation_2D with unit arguments (list and table overload)
+    gx, gy = [0.0, 100.0, 300.0], [-1.0, 0.0, 4.0, 5.0]
+    for (xd, yd) in [(-1.0, -1.0), (10.0, -1.0), (-1.0, 1e-3), (1e6, 0.5), (1.0, 1.0), (0.0, 3.0)] + ([(1e-300, 1e300), (5.0677e15, 1.9733e-16)] if big else []):
+        sx, sy = scaled_table(gx, xd) or gx, scaled_table(gy, yd) or gy
+        fd = rng.choice(fdims)
+        for table in (False, True):
+            if table: h = f"i2calls_t {len(gx) * len(gy)} " + " ".join(f"3 {hx(x)} {hx(y)} {hx(x + 2 * y)}" for x in gx for y in gy) + f" {hx(xd)} {hx(yd)} {hx(fd)}"
+            else: h = f"i2calls {flist(gx)} {flist(gy)} {ilist([len(gy)] * len(gx))} {hx(xd)} {hx(yd)} {hx(fd)}"
+            add(f"{h} 0", "units-2d", nt=True)
+            ex = [p for p, nt in edge_points(sx) if nt][::(3 if big else 7)] + [0.5 * (sx[0] + sx[1]), gx[1], 0.5 * (gx[0] + gx[1])]
+            ey = [p for p, nt in edge_points(sy) if nt][::(3 if big else 7)] + [0.5 * (sy[0] + sy[1]), gy[1], 0.5 * (gy[-2] + gy[-1])]
+            for x in ex: add(f"{h} 1 {hx(x)} {hx(0.5 * (sy[0] + sy[1]))}", "units-2d", nt=True)
+            for y in ey: add(f"{h} 1 {hx(0.5 * (sx[1] + sx[2]))} {hx(y)}", "units-2d", nt=True)
+            for _ in range(3):
+                pts = [(rng.uniform(sx[0], sx[-1]), rng.uniform(sy[0], sy[-1])) for _ in range(rng.choice([2, 4, 7]))]
+                if rng.random() < 0.5: pts.append((rng.choice(ex), rng.choice(ey)))
+                add(f"{h} {len(pts)} " + " ".join(f"{hx(x)} {hx(y)}" for x, y in pts), "units-2d", nt=True)
+    add(f"i2calls {flist(gx)} {flist(gy)} {ilist([len(gy)] * 2)} {hx(10.0)} {hx(10.0)} {hx(-1.0)} 0", "units-2d", nt=True)
+    add(f"i2calls {flist([1.0, 1.0])} {flist(gy)} {ilist([len(gy)] * 2)} {hx(10.0)} {hx(10.0)} {hx(-1.0)} 0", "units-2d", nt=True)
+    # ---- Factorial / Binomial_Coefficient: the memo table of the process after larger, smaller, repeated requests
+    lows = [0, 1, 2, 15, 16, 17, 100, 159, 160, 161, 165, 169, 170]
+    highs = [171, 172, 175, 176, 177, 191, 192, 255, 256, 1000, 2147483647, 2147483648, UMAX]
+    for a in lows:
+        for b in rng.sample(highs, 3 if not big else len(highs)): add(f"fact_seq 2 f {a} f {b}", "factorial-history", nt=True)
+    for b in highs: add(f"fact_seq 3 f 170 f 3 f {b}", "factorial-history", nt=True); add(f"fact_seq 2 b 170 {rng.choice([0, 3, 85, 170])} f {b}", "factorial-history", nt=True)
+    for _ in range(30 if not big else 300):
+        k = rng.randint(2, 6); calls = []
+        for _ in range(k):
+            if rng.random() < 0.7: calls.append(f"f {rng.choice(lows + [rng.randint(0, 170)])}")
+            else: n = rng.choice([0, 5, 40, 170, 171, 300]); calls.append(f"b {n} {rng.randint(0, n + 1)}")
+        tail = rng.random()
+        if tail < 0.4: calls.append(f"f {rng.choice(highs)}")
+        elif tail < 0.5: calls.append(f"b {rng.choice([-1, 5])} {rng.choice([-1, -2147483648])}")
+        add(f"fact_seq {len(calls)} " + " ".join(calls), "factorial-history", nt=True)
+    # ---- Vector: Resize / Assign / copy / assignment / +=, then a request at the new boundary
+    for _ in range(60 if not big else 600):
+        d = rng.choice([0, 1, 2, 3, 4, 7]); ops = []; cur = d
+        for _ in range(rng.randint(1, 3)):
+            w = rng.choice(["resize", "resize", "assign", "copy", "set", "addeq"])
+            if w in ("resize", "assign", "set"): cur = max(0, cur + rng.choice([-2, -1, 0, 1, 2, 3])) if rng.random() < 0.8 else rng.choice([0, 3]); ops.append(f"{w} {cur}")
+            elif w == "addeq": ops.append(f"addeq {cur}")
+            else: ops.append("copy")
+        pk = rng.choice(["at", "at", "dot", "add", "sub", "addeq", "cross", "none"])
+        arg = {"at": rng.choice([cur - 1, cur, cur + 1, 0, UMAX, d - 1, d]), "cross": rng.choice([3, cur])}.get(pk, rng.choice([cur, cur, cur + 1, cur - 1, d]))
+        if pk == "at" and arg < 0: arg = 0
+        if pk != "at" and arg < 0: arg = 0
+        add(f"vec_hist {d} {len(ops)} " + " ".join(ops) + (f" {pk} {arg}" if pk != "none" else " none"), "vector-history", nt=True)
+    if rng.random() < 2: add("vec_hist 3 1 addeq 4 none", "vector-history", nt=True)
+    # ---- Matrix: every restructuring member function followed by every guarded request, at the new and at the old shape
+    def probes(shape, old):
+        r, c = shape; ro, co = old
+        ps = [f"at {max(r - 1, 0)}", f"at {r}", f"row 0", f"row {max(r - 1, 0)}", f"row {r}", f"col {max(c - 1, 0)}", f"col {c}",
+              f"plus {r} {c}", f"minus {r} {c}", f"pluseq {r} {c}", f"plus {c} {r}", f"plus {ro} {co}", f"pluseq {ro} {co}", f"plus {r} {c + 1}", f"plus {r + 1} {c}",
+              f"mul {c} 2", f"mul {co} 2", f"mul {r} 2", f"lmul 2 {r}", f"lmul 2 {ro}", f"lmul 2 {c}", f"matvec {c}", f"matvec {co}", f"matvec {r}", f"vecmat {r}", f"vecmat {ro}", f"vecmat {c}",
+              "trace", "transpose", "eq", "none", f"sub 0 0", f"sub {max(r - 1, 0)} {max(c - 1, 0)}", f"sub {r} 0", f"sub 0 {c}"]
+        if r <= 4 and c <= 4: ps.append("det")
+        return ps
+    starts = [(3, 3), (2, 3), (3, 2), (1, 1), (2, 2), (4, 5)] + ([(1, 4), (5, 2), (6, 6)] if big else [])
+    for (r, c) in starts:
+        targets = sorted(set((r + dr, c + dc) for dr in (-1, 0, 1, 2) for dc in (-2, -1, 0, 1, 2) if r + dr >= 0 and c + dc >= 0 and (dr, dc) != (0, 0)))
+        for (r2, c2) in targets:
+            for w, k in (("resize", 2), ("assign", 1)):
+                ps = probes((r2, c2), (r, c))
+                for pr in (ps if big else rng.sample(ps, k)): add(f"mat_hist {r} {c} 1 {w} {r2} {c2} {pr}", "matrix-history", nt=True)
+        for i in sorted(set([0, r - 1, r])):
+            ps = probes((r - 1, c), (r, c)) if i < r else ["none"]
+            for pr in (ps if big else rng.sample(ps, min(3, len(ps)))): add(f"mat_hist {r} {c} 1 delrow {i} {pr}", "matrix-history", nt=True)
+        for j in sorted(set([0, c - 1, c])):
+            ps = probes((r, c - 1), (r, c)) if j < c else ["none"]
+            for pr in (ps if big else rng.sample(ps, min(3, len(ps)))): add(f"mat_hist {r} {c} 1 delcol {j} {pr}", "matrix-history", nt=True)
+        for w, sh in (("transp", (c, r)), ("copy", (r, c)), (f"sum {r} {c}", (r, c)), (f"prod {c} 4", (r, 4)), (f"pluseq {r} {c}", (r, c)), (f"set {c + 1} {r}", (c + 1, r))):
+            ps = probes(sh, (r, c))
+            for pr in (ps if big else rng.sample(ps, 3)): add(f"mat_hist {r} {c} 1 {w} {pr}", "matrix-history", nt=True)
+        for w in (f"sum {c} {r + 1}", f"prod {c + 1} 2", f"pluseq {r} {c + 1}"): add(f"mat_hist {r} {c} 1 {w} none", "matrix-history", nt=True)
+    # random histories of 2..5 steps, meaningless at most in the last step or in the final request
+    for _ in range(150 if not big else 4000):
+        shape = (rng.choice([0, 1, 2, 3, 3, 4]), rng.choice([0, 1, 2, 3, 3, 4])) if rng.random() < 0.12 else (rng.randint(1, 4), rng.randint(1, 4))
+        s0 = shape; ops = []; n = rng.randint(2, 5); old = shape; dead = False
+        for k in range(n):
+            r, c = shape; last = k == n - 1
+            w = rng.choice(["resize", "resize", "assign", "delrow", "delcol", "copy", "set", "pluseq", "sum", "prod", "transp"])
+            bad = last and rng.random() < 0.15
+            if w in ("resize", "assign", "set"): a, b = max(0, r + rng.choice([-1, 0, 1, 2])), max(0, c + rng.choice([-2, -1, 0, 1, 2])); ops.append(f"{w} {a} {b}")
+            elif w == "delrow":
+                if r == 0 and not bad: continue
+                a = r if bad else rng.randrange(r); b = 0; ops.append(f"delrow {a}")
+            elif w == "delcol":
+                if c == 0 and not bad: continue
+                a = c if bad else rng.randrange(c); b = 0; ops.append(f"delcol {a}")
+            elif w in ("pluseq", "sum"): a, b = (c, r + 1) if bad else (r, c); ops.append(f"{w} {a} {b}")
+            elif w == "prod": a, b = (c + 1 if bad else c), rng.randint(0, 4); ops.append(f"prod {a} {b}")
+            else: a = b = 0; ops.append(w)
+            nxt = mat_apply(shape, w, a, b)
+            if nxt is False or nxt is None: dead = True; break
+            old = shape; shape = nxt
+        if not ops: continue
+        pr = "none" if dead else rng.choice(probes(shape, old))
+        add(f"mat_hist {s0[0]} {s0[1]} {len(ops)} " + " ".join(ops) + " " + pr, "matrix-history", nt=True)
 
 
 # ------------------------------------------------------------------ comparison, S4, non-triviality
@@ -460,9 +780,30 @@ def predicates(c, io):
     try: m = meaningful(c.line)
     except (ValueError, IndexError) as e: return [(op + ":predicate-error", f"cannot parse case: {e!r}")]
     if m is None: return []
-    if m and head != "OK": return [(op + ":meaningful-request-exits", f"a meaningful request did not return normally ({io})")]
-    if (not m) and head != "EXIT": return [(op + ":meaningless-request-accepted", f"a request with no mathematical meaning returned normally ({io}) instead of exiting with a diagnostic")]
-    return []
+    t = c.line.split(); region = ""
+    if op == "mat_hist" and mat_ref(t)[2]: region = ":after-zero-row-result"
+    if m and head != "OK": return [(op + ":meaningful-request-exits" + region, f"a meaningful request did not return normally ({io})")]
+    if (not m) and head != "EXIT": return [(op + ":meaningless-request-accepted" + region, f"a request with no mathematical meaning returned normally ({io}) instead of exiting with a diagnostic")]
+    out = []
+    if m and head == "OK":
+        got = io.split()[1:]
+        if op == "mat_hist":
+            _, shape, _ = mat_ref(t)
+            if len(got) != 3: return [(op + ":output", f"unexpected output {io}")]
+            R, C, bad = (int(x) for x in got)
+            if (R, C) != shape:
+                out.append((op + ":result-shape" + region, f"after this history the matrix is {shape[0]}x{shape[1]}, the object says {R}x{C}: the next conformable request will be refused, the next non-conformable one accepted"))
+            if bad != 0:
+                out.append((op + ":row-length-invariant", f"{bad} of the {R} rows of the object do not hold Columns() = {C} entries: every shape guard passes for conformable operands and the element loop reads or writes out of bounds"))
+        elif op == "vec_hist":
+            _, d = vec_ref(t)
+            if len(got) != 1 or int(got[0]) != d: out.append((op + ":result-size", f"after this history the vector has {d} components, the object says {io}"))
+        elif op in ("icalls", "icalls_t", "i2calls", "i2calls_t"):
+            _, dom = (icalls_ref if op.startswith("icalls") else i2calls_ref)(t)
+            vals = [tokf(x) for x in got]
+            if dom is not None and (len(vals) != len(dom) or any(a != b for a, b in zip(vals, dom))):
+                out.append((op + ":domain", f"`domain` is {vals} but the tabulated (converted) abscissae span {list(dom)}: requests are judged against the wrong interval"))
+    return out
 
 
 def nontrivial(c, io):
